@@ -32,6 +32,8 @@ def diff_to_edits(rng, before: dict, after: dict, in_place_bias: float):
         elif before.get(p) != after[p]:
             if rng.chance(in_place_bias):
                 eds.append({"kind": "write", "path": p, "data": after[p], "steps": rng.randint(1, 3)})
+            elif p in before and rng.chance(0.3):
+                eds.append({"kind": "backup", "path": p, "data": after[p]})      # move aside, write anew, delete the backup
             else:
                 eds.append({"kind": "atomic", "path": p, "data": after[p]})
     return eds
@@ -269,7 +271,7 @@ def final_inputs(doc):
             cur.pop(ed["path"], None)
             for p in [p for p in cur if p.startswith(ed["path"] + "/")]:
                 cur.pop(p)
-        elif ed["kind"] in ("write", "atomic"):
+        elif ed["kind"] in ("write", "atomic", "backup"):
             cur[ed["path"]] = ed["data"]
         elif ed["kind"] == "rename":
             for p in [p for p in cur if p == ed["path"] or p.startswith(ed["path"] + "/")]:
